@@ -93,15 +93,28 @@ func (e *Env) SetExternalLookup(externalLookup ExternalLookup) {
 // String returns string of values and types in current scope.
 func (e *Env) String() string {
 	var buffer bytes.Buffer
-	e.rwMutex.RLock()
 
-	if e.parent == nil {
+	// the tables are copied under the lock and formatted after it is released: formatting
+	// runs methods of the bound values (GoString, String), which may use this scope
+	e.rwMutex.RLock()
+	hasParent := e.parent != nil
+	values := make(map[string]reflect.Value, len(e.values))
+	for symbol, value := range e.values {
+		values[symbol] = value
+	}
+	types := make(map[string]reflect.Type, len(e.types))
+	for symbol, aType := range e.types {
+		types[symbol] = aType
+	}
+	e.rwMutex.RUnlock()
+
+	if !hasParent {
 		buffer.WriteString("No parent\n")
 	} else {
 		buffer.WriteString("Has parent\n")
 	}
 
-	for symbol, value := range e.values {
+	for symbol, value := range values {
 		if value.IsValid() && value.CanInterface() {
 			if _, isModule := value.Interface().(*Env); isModule {
 				// a module is named, not dumped: its tables are guarded by its own lock
@@ -112,11 +125,10 @@ func (e *Env) String() string {
 		buffer.WriteString(fmt.Sprintf("%v = %#v\n", symbol, value))
 	}
 
-	for symbol, aType := range e.types {
+	for symbol, aType := range types {
 		buffer.WriteString(fmt.Sprintf("%v = %v\n", symbol, aType))
 	}
 
-	e.rwMutex.RUnlock()
 	return buffer.String()
 }
 
